@@ -243,6 +243,38 @@ def reattach(code_base, gaps, cur_lines, what):
     return out, changed
 
 
+def infer_renames(changed, base_text):
+    """A local that was consistently renamed in the repository (`bit_offset` -> `off`) is renamed in the ghost
+    lines too.  Heuristic only: soundness rests on the erasure check and on Verus."""
+    ren = {}
+    base_idents = {t.text for t in rl.code_tokens(base_text) if t.kind == "ident"}
+    for old, new in changed:
+        if len(old) != len(new):
+            continue
+        for lo, ln in zip(old, new):
+            try:
+                to, tn = rl.code_tokens(lo), rl.code_tokens(ln)
+            except rl.LexError:
+                continue
+            if len(to) != len(tn):
+                continue
+            for a, b in zip(to, tn):
+                if a.kind == "ident" and b.kind == "ident" and a.text != b.text:
+                    if b.text in base_idents or ren.get(a.text, b.text) != b.text:
+                        return {}
+                    ren[a.text] = b.text
+                elif a.text != b.text:
+                    break
+    return ren
+
+
+def rename_idents(line, ren):
+    out = []
+    for t in rl.lex(line):
+        out.append(ren.get(t.text, t.text) if t.kind == "ident" else t.text)
+    return "".join(out)
+
+
 # ----------------------------------------------------------------------------- directives
 
 _DIR = re.compile(r"^\s*/\*@\*/\s*//!(\w+)\s*(.*)$")
@@ -465,6 +497,10 @@ def generate(spec_path, repo, vacuity=False):
             code_base, gaps = split_block(block)
             what = "%s::%s" % (rel, path)
             merged, changed = reattach(code_base, gaps, cur_lines, what)
+            ren = infer_renames(changed, "\n".join(code_base))
+            if ren:
+                merged = [rename_idents(ml, ren) if _is_ghost(ml) else ml for ml in merged]
+                report.setdefault("ghost_renames", []).append({"item": path, "renamed_locals": ren})
             sublog = []
             final = apply_directives(merged, sublog)
             substs = [tuple(x["subst"]) for x in sublog]
